@@ -445,6 +445,8 @@ def explore_config(cfg, tier, rec=None, want=None):
                     exp_classes = {r["cls"] for r in rows if r["cls"] in members}
                     nontrivial = bool(exp_classes - {k}) or any(r["cls"] not in members for r in rows)
                     for q in queries(h, k):
+                        if want is not None and qtype(q) != want[1]:
+                            continue
                         try:
                             p = run_query(h, eng, k, q, rows)
                         except Exception as e:  # implementation call failed on a well-formed query
@@ -477,24 +479,47 @@ def all_configs():
             yield cfg
 
 
+def _reductions(cfg):
+    """simpler neighbours of a configuration, most drastic first"""
+    parents, kinds, abstract, expr, load = cfg
+    n = len(parents) + 1
+    out = []
+    has_child = {p for p in parents}
+    for i in range(n - 1, 0, -1):
+        if i not in has_child:  # remove leaf class i
+            np_ = tuple((p - 1 if p > i else p) for j, p in enumerate(parents, start=1) if j != i)
+            nk = "".join(k for j, k in enumerate(kinds, start=1) if j != i)
+            ab = abstract if any(p != 0 for p in np_) else False
+            out.append((np_, nk, ab, expr, load if len(np_) or load in ("none", "base_wp_star") else "none"))
+    if expr:
+        out.append((parents, kinds, abstract, False, load))
+    if abstract:
+        out.append((parents, kinds, False, expr, load))
+    if load != "none":
+        out.append((parents, kinds, abstract, expr, "none"))
+    for i, k in enumerate(kinds):
+        if k == "S":
+            out.append((parents, kinds[:i] + "J" + kinds[i + 1:], abstract, expr, load))
+    return out
+
+
 def minimal(tier, kind, qt, own):
-    """globally smallest configuration (canonical order) failing with the same kind at the same query type;
-    searched among configurations not larger than the failing one"""
-    key = (kind, qt)
+    """greedy reduction of the failing hierarchy configuration (drop leaf classes, expression discriminator,
+    abstract flag, loading setting, single -> joined) keeping a failure of the same kind at the same query type"""
+    key = (kind, qt, own)
     if key in _MIN:
         return _MIN[key]
-    res = None
-    for cfg in all_configs():
-        if len(cfg[0]) > len(own[0]):
-            break
-        if cfg == own:
-            break
-        f = explore_config(cfg, "quick", None, want=(kind, qt))
-        if f:
-            res = (cfg, f)
-            break
-    _MIN[key] = res
-    return res
+    cur, found = own, None
+    changed = True
+    while changed:
+        changed = False
+        for c in _reductions(cur):
+            f = explore_config(c, "quick", None, want=(kind, qt))
+            if f:
+                cur, found, changed = c, f, True
+                break
+    _MIN[key] = (cur, found) if found else None
+    return _MIN[key]
 
 
 def cfg_desc(cfg):
@@ -504,17 +529,19 @@ def cfg_desc(cfg):
 def report(rec, tier, cfg, counts, k, q, p):
     kind, detail = p
     qt = qtype(q)
-    if ("seen", kind, qt) in rec._vsigs:
+    if ("seen", kind) in rec._vsigs:
         rec.count("violating_cases")
         return
-    rec._vsigs.add(("seen", kind, qt))
+    rec._vsigs.add(("seen", kind))
     m = minimal(tier, kind, qt, cfg)
     if m:
         mcfg, (mk, mq, mcounts, mdetail) = m
     else:
         mcfg, mk, mq, mcounts, mdetail = cfg, k, q, counts, detail
-    sig = "%s %s at C%d: %s rows_per_class=%s" % (kind, qstr(mq), mk, cfg_desc(mcfg), list(mcounts))
-    rec.violation(sig, mdetail + "\n(first seen in this shard: %s rows=%s %s at C%d)" % (cfg_desc(cfg), list(counts), qstr(q), k),
+    # one signature per failure kind and minimal hierarchy (the query form is in the detail)
+    sig = "%s: %s" % (kind, cfg_desc(mcfg))
+    rec.violation(sig, mdetail + "\nminimal case: %s at C%d, rows per class %s (first seen in this shard: %s rows=%s %s at C%d)" % (
+        qstr(mq), mk, list(mcounts), cfg_desc(cfg), list(counts), qstr(q), k),
                   dict(kind="hier", cfg=[list(mcfg[0]), mcfg[1], mcfg[2], mcfg[3], mcfg[4]], counts=list(mcounts), k=mk, q=_qjson(mq)))
 
 
@@ -699,7 +726,7 @@ def replay(case):
                 p = ("raised %s" % type(e).__name__, "%s: %s" % (type(e).__name__, str(e)[:300]))
             eng.dispose()
         if p:
-            return [("%s %s at C%d: %s rows_per_class=%s" % (p[0], qstr(q), case["k"], cfg_desc(cfg), list(case["counts"])), p[1])]
+            return [("%s: %s" % (p[0], cfg_desc(cfg)), p[1])]
     except StopShard:
         pass
     return []
